@@ -3,6 +3,9 @@
 #pragma once
 #include "drv_common.hpp"
 #include <mdspan/mdspan.hpp>
+#if MDSPAN_HAS_CXX_17
+#include <mdspan/mdarray.hpp>
+#endif
 
 namespace drv {
 
@@ -79,6 +82,19 @@ template <class M, int LAY> void run_map(long caseno, Toks &tk) {
     f += sp.is_unique() ? '1' : '0'; f += sp.is_exhaustive() ? '1' : '0'; f += sp.is_strided() ? '1' : '0';
     f += sp.is_always_unique() ? '1' : '0'; f += sp.is_always_exhaustive() ? '1' : '0'; f += sp.is_always_strided() ? '1' : '0';
     o.field("mfl", f);
+#if MDSPAN_HAS_CXX_17
+    { // and through an mdarray over this mapping (an instance only when its storage is small)
+      using ARR = Kokkos::Experimental::mdarray<int, E, L>;
+      std::string a = "xxx";
+      const i128 spn = to_i128(m.required_span_size());
+      if (spn >= 0 && spn <= 4096) {
+        const ARR arr(m);
+        a.clear(); a += arr.is_unique() ? '1' : '0'; a += arr.is_exhaustive() ? '1' : '0'; a += arr.is_strided() ? '1' : '0';
+      }
+      a += ARR::is_always_unique() ? '1' : '0'; a += ARR::is_always_exhaustive() ? '1' : '0'; a += ARR::is_always_strided() ? '1' : '0';
+      o.field("afl", a);
+    }
+#endif
     o.field("sz", str_i128(to_i128(sp.size())));
     o.field("emp", sp.empty() ? "1" : "0");
     std::vector<i128> me, ms, se;
